@@ -178,8 +178,9 @@ class SymH:
 
     # ------------------------------------------------------------ abstract callables
     def fn(self, name, ret='real', raises=(), attrs=None, missing=(), pure=True, nargs=None, sym=None, native=None,
-           log=None, mutates=False, minlen=0):
-        """abstract callable.  ret: real | int | bool | opaque | list | same (returns a list of the length of arg 0).
+           log=None, mutates=False, minlen=0, inplace=False):
+        """abstract callable.  inplace: the (list) result is written into argument 0, which is returned (the way
+        mystic's own generated constraints work).  ret: real | int | bool | opaque | list | same (returns a list of the length of arg 0).
         Deterministic in its numeric/list arguments (uninterpreted function).  `raises`: exception type names
         that it may raise (decided by an uninterpreted predicate of the arguments)."""
         H = self
@@ -189,6 +190,10 @@ class SymH:
                 return sym(H, I, args, kwargs)
             if log is not None:
                 H.st.ghost.setdefault(log, []).append(tuple(Mo.snapshot(I, a) for a in args))
+            if inplace:
+                res = impl0(I, args, kwargs)
+                Mo.list_assign_all(I, args[0], res)
+                return args[0]
             if mutates:
                 res = impl0(I, args, kwargs)
                 for a in args:
@@ -769,7 +774,7 @@ class NativeH:
 
     # ------------------------------------------------------------ abstract callables
     def fn(self, name, ret='real', raises=(), attrs=None, missing=(), pure=True, nargs=None, sym=None, native=None,
-           log=None, mutates=False, minlen=0):
+           log=None, mutates=False, minlen=0, inplace=False):
         H = self
         self._minlen = getattr(self, '_minlen', {})
         self._minlen[name] = minlen
@@ -811,6 +816,9 @@ class NativeH:
             rec.append([k, r if not isinstance(r, Exception) else 'raise'])
             if isinstance(r, dict) and 'raise' in r:
                 raise _EXC[r['raise']]()
+            if inplace and not (isinstance(r, dict) and 'raise' in r):
+                args[0][:] = list(r)
+                return args[0]
             if ret in ('same_nd', 'ndarray'):
                 import numpy
                 return numpy.array(r, dtype=float)
